@@ -36,6 +36,10 @@ extern int verif_error_context_depth (void);
 extern interactive_t *create_test_interactive (object_t * ob);
 extern int call_function_interactive (interactive_t * i, char *str);
 extern void remove_destructed_objects (void);
+extern int verif_load_object_depth (void);
+extern object_t *verif_restrict_destruct (void);
+extern void reset_load_object_limits (void);
+extern void reset_destruct_object_limits (void);
 
 static long c05_maxk = 0;	/* 0 = all k */
 
@@ -54,11 +58,11 @@ static const char *oname (object_t * ob)
 
 static void snapshot (char *buf, size_t n)
 {
-  snprintf (buf, n, "sp=%ld csp=%ld cg=%s co=%s po=%s prog=%s ct=%d fp=%ld pc=%s fio=%d vio=%d ctx=%d",
+  snprintf (buf, n, "sp=%ld csp=%ld cg=%s co=%s po=%s prog=%s ct=%d fp=%ld pc=%s fio=%d vio=%d ctx=%d ld=%d rd=%s",
             (long) (sp - start_of_stack), (long) (csp - control_stack), oname (command_giver), oname (current_object),
             oname (previous_ob), current_prog ? current_prog->name : "0", caller_type,
             fp ? (long) (fp - start_of_stack) : -1L, pc ? "set" : "null", function_index_offset, variable_index_offset,
-            verif_error_context_depth ());
+            verif_error_context_depth (), verif_load_object_depth (), oname (verif_restrict_destruct ()));
 }
 
 /* ---- capture of the VL lines written to stderr (a regular file in the case child) ---------------- */
@@ -293,6 +297,8 @@ static unsigned long evaluate_k (object_t * ob, const char *fn, long k, const ch
   int same_head = verif_error_context_head () == base_head;
   int changed = renormalise ();
   run_probe (probe, sizeof probe);
+  reset_load_object_limits ();
+  reset_destruct_object_limits ();
   size_t len = strlen (out);
   snprintf (out + len, len < n ? n - len : 0, "%s%s ; after=%s%s%s ; probe=%s", len ? " ; " : "", res, snap,
             same_head ? "" : " head-differs", changed ? "" : "", probe);
